@@ -79,6 +79,16 @@ impl Builder {
         Ok(reader)
     }
 
+    /// Verification hook (feature `verif` only): builds a reader from a caller-supplied
+    /// buffered reader, running the same detection and construction code as [`Builder::build`].
+    #[cfg(feature = "verif")]
+    pub fn build_from_bufread<R>(self, reader: R) -> io::Result<super::DynReader>
+    where
+        R: 'static + io::BufRead,
+    {
+        self.build_from_reader(reader)
+    }
+
     /// Sets the compression method of the reader.
     ///
     /// By default, the compression method will be automatically detected.
